@@ -1003,6 +1003,35 @@ class Explorer:
         self.internal_assumptions.add(note)
         self.assume(mk_bool(t))
 
+    def grid_values(self, extra=None):
+        """Try to find a float-exact model of the path (and ``extra``): every real variable a
+        multiple of 1/8 in [-512, 512] (thresholds etc. included).  Such witnesses replay on the
+        real libraries without rounding artefacts.  Returns (values, on_grid)."""
+        self.solver.push()
+        try:
+            if extra is not None:
+                self.solver.add(extra)
+            self.solver.push()
+            for name, v in self.vars.items():
+                if z3.is_real(v) and name != 'pi':
+                    g = z3.Int('grid!' + name)
+                    self.solver.add(v * 8 == z3.ToReal(g), g >= -4096, g <= 4096)
+            self.n_queries += 1
+            old = self.solver.check()
+            if old == z3.sat:
+                vals = model_values(self.solver.model(), self.vars)
+                self.solver.pop()
+                return vals, True
+            self.solver.pop()
+            if extra is None:
+                return None, False
+            r = self.solver.check()
+            if r == z3.sat:
+                return model_values(self.solver.model(), self.vars), False
+            return None, False
+        finally:
+            self.solver.pop()
+
     def witness(self):
         """Concrete values of all declared variables under the current model."""
         if self.model is None:
@@ -1034,7 +1063,8 @@ class Explorer:
             m = self._m
             vals = model_values(m, self.vars)
             self.solver.pop()
-            self._violation(label, vals, detail)
+            gv, on_grid = self.grid_values(z3.Not(t))
+            self._violation(label, gv if on_grid else vals, detail)
             return False
         self.solver.pop()
         self.inconclusive.append("solver returned unknown on obligation %s" % label)
@@ -1147,12 +1177,16 @@ class Explorer:
         if r == z3.sat:
             m = self._m
             vals = model_values(m, self.vars)
-            bad = None
+            bad, bad_t = None, None
             for t, label in sym:
                 if z3.is_false(m.eval(t, model_completion=True)):
-                    bad = label
+                    bad, bad_t = label, t
                     break
             self.solver.pop()
+            if bad_t is not None:
+                gv, on_grid = self.grid_values(z3.Not(bad_t))
+                if on_grid:
+                    vals = gv
             self._violation(bad or sym[0][1], vals, None)
             return False
         self.solver.pop()
